@@ -5,6 +5,9 @@ import (
 	"go/ast"
 	"go/token"
 	"go/types"
+	"math/bits"
+	"strconv"
+	"strings"
 
 	"golang.org/x/tools/go/packages"
 	"golang.org/x/tools/go/types/typeutil"
@@ -26,21 +29,21 @@ func (e *rpfErr) Error() string { return e.msg }
 func rpfFail(format string, a ...interface{}) { panic(&rpfErr{fmt.Sprintf(format, a...)}) }
 
 type rpf struct {
-	c        *Ctx
-	p        *packages.Package
-	env      map[types.Object]*Val
-	callHook func(r *rpf, call *ast.CallExpr, callee types.Object) (*Val, bool)
-	selHook  func(r *rpf, sel *ast.SelectorExpr) (*Val, bool)
-	idxHook  func(r *rpf, ix *ast.IndexExpr) (*Val, bool)
-	stHook   func(r *rpf, lhs ast.Expr, v *Val) bool // store through an index/selector expression, recorded as an effect
-	steps    int
+	c           *Ctx
+	p           *packages.Package
+	env         map[types.Object]*Val
+	callHook    func(r *rpf, call *ast.CallExpr, callee types.Object) (*Val, bool)
+	selHook     func(r *rpf, sel *ast.SelectorExpr) (*Val, bool)
+	idxHook     func(r *rpf, ix *ast.IndexExpr) (*Val, bool)
+	stHook      func(r *rpf, lhs ast.Expr, v *Val) bool // store through an index/selector expression, recorded as an effect
+	steps       int
 	inTableLoop int
-	multiHook func(call *ast.CallExpr, callee types.Object) ([]*Val, bool)
-	maxSteps  int // step budget of one fold (default 100000)
+	multiHook   func(call *ast.CallExpr, callee types.Object) ([]*Val, bool)
+	maxSteps    int // step budget of one fold (default 100000)
 	assertHook  func(r *rpf, ta *ast.TypeAssertExpr, v *Val) (holds, claimed bool)
 	curFn       *ast.FuncDecl // the function being folded (bare returns)
-	effectCalls bool // statement-level calls of repository functions are folded for their effect on fold-local storage
-	unroll    int // > 0: plain `for` loops over scalar state are unrolled up to this many iterations (constant propagation with bounded unrolling); 0: such loops are outside the fragment
+	effectCalls bool          // statement-level calls of repository functions are folded for their effect on fold-local storage
+	unroll      int           // > 0: plain `for` loops over scalar state are unrolled up to this many iterations (constant propagation with bounded unrolling); 0: such loops are outside the fragment
 }
 
 func vint(i int64) *Val  { return &Val{K: VInt, I: i} }
@@ -933,6 +936,9 @@ func (r *rpf) expr(e ast.Expr) *Val {
 			}
 			if v.K == VInt {
 				if bt, isB := ftv.Type.Underlying().(*types.Basic); isB && bt.Info()&types.IsString != 0 {
+					if v.I >= 0 && v.I <= 0x10FFFF {
+						return vstr(string(rune(v.I))) // string(b) of a byte or rune: the one-character string
+					}
 					rpfFail("%s: integer to string conversion", r.c.pos(x.Pos()))
 				}
 				return r.wrap(vint(v.I), ftv.Type)
@@ -970,6 +976,10 @@ func (r *rpf) expr(e ast.Expr) *Val {
 			if v, ok := r.callHook(r, x, callee); ok {
 				return v
 			}
+		}
+		// pure functions of the standard library and the min / max builtins on folded integers
+		if v, ok := r.stdPure(x, callee); ok {
+			return v
 		}
 		if b, ok := callee.(*types.Builtin); ok && b.Name() == "append" && len(x.Args) >= 1 {
 			base := r.expr(x.Args[0])
@@ -1307,4 +1317,108 @@ func (c *Ctx) rpfCallMulti(fd *ast.FuncDecl, p *packages.Package, args []*Val, h
 		}
 	}
 	return c.rpfCall(fd, p, args, h)
+}
+
+// stdPure folds calls of math/bits functions, strconv.Itoa and the min / max builtins on constant integer arguments.
+func (r *rpf) stdPure(x *ast.CallExpr, callee types.Object) (*Val, bool) {
+	ints := func() ([]int64, bool) {
+		var out []int64
+		for _, a := range x.Args {
+			v := r.expr(a)
+			if v.K != VInt {
+				return nil, false
+			}
+			out = append(out, v.I)
+		}
+		return out, true
+	}
+	if b, ok := callee.(*types.Builtin); ok && (b.Name() == "min" || b.Name() == "max") && len(x.Args) >= 1 {
+		xs, ok := ints()
+		if !ok {
+			return nil, false
+		}
+		m := xs[0]
+		for _, v := range xs[1:] {
+			if (v < m) == (b.Name() == "min") {
+				m = v
+			}
+		}
+		return r.wrap(vint(m), r.p.TypesInfo.TypeOf(x)), true
+	}
+	fn, ok := callee.(*types.Func)
+	if !ok || fn.Pkg() == nil {
+		return nil, false
+	}
+	switch fn.Pkg().Path() {
+	case "math/bits":
+		xs, ok := ints()
+		if !ok || len(xs) != 1 {
+			return nil, false
+		}
+		u := uint64(xs[0])
+		width := 64
+		for _, w := range []int{8, 16, 32, 64} {
+			if strings.HasSuffix(fn.Name(), fmt.Sprint(w)) {
+				width = w
+			}
+		}
+		if width < 64 {
+			u &= 1<<uint(width) - 1
+		}
+		name := strings.TrimRight(fn.Name(), "0123456789")
+		res := int64(-1)
+		switch name {
+		case "Reverse":
+			res = int64(bits.Reverse64(u) >> uint(64-width))
+		case "OnesCount":
+			res = int64(bits.OnesCount64(u))
+		case "TrailingZeros":
+			if u == 0 {
+				res = int64(width)
+			} else {
+				res = int64(bits.TrailingZeros64(u))
+			}
+		case "LeadingZeros":
+			res = int64(bits.LeadingZeros64(u)) - int64(64-width)
+		case "Len":
+			res = int64(bits.Len64(u))
+		case "ReverseBytes":
+			res = int64(bits.ReverseBytes64(u) >> uint(64-width))
+		}
+		if res < 0 {
+			return nil, false
+		}
+		return r.wrap(vint(res), r.p.TypesInfo.TypeOf(x)), true
+	case "strings":
+		if len(x.Args) == 2 {
+			a, b := r.expr(x.Args[0]), r.expr(x.Args[1])
+			if a.K == VStr && b.K == VStr {
+				switch fn.Name() {
+				case "Index":
+					return vint(int64(strings.Index(a.S, b.S))), true
+				case "Contains":
+					return vbool(strings.Contains(a.S, b.S)), true
+				case "HasPrefix":
+					return vbool(strings.HasPrefix(a.S, b.S)), true
+				case "HasSuffix":
+					return vbool(strings.HasSuffix(a.S, b.S)), true
+				}
+			}
+			if a.K == VStr && b.K == VInt {
+				switch fn.Name() {
+				case "IndexByte":
+					return vint(int64(strings.IndexByte(a.S, byte(b.I)))), true
+				case "IndexRune":
+					return vint(int64(strings.IndexRune(a.S, rune(b.I)))), true
+				}
+			}
+		}
+	case "strconv":
+		if fn.Name() == "Itoa" {
+			if xs, ok := ints(); ok && len(xs) == 1 {
+				return vstr(strconv.Itoa(int(xs[0]))), true
+			}
+		}
+	}
+	return nil, false
 }
